@@ -367,6 +367,77 @@ func checkC15(c *Ctx) {
 	c.resetRule(p, "xof/k12", "State", []string{"Write", "Read"}, map[string]string{
 		"leaf": "re-created by Write whenever buf is nil, which Reset establishes",
 	})
+	// the exception above rests on "Write re-creates the leaf whenever it starts a new one": the assignment of
+	// s.leaf in Write must not itself be conditional on what s.leaf holds (Reset does not clear it)
+	{
+		f := p.Func("xof/k12", "State", "Write")
+		what := "(*xof/k12.State).Write: the leaf sponge is re-created unconditionally when a new leaf starts (Reset does not clear it)"
+		if f == nil {
+			c.undecided("C15.reset", what, "anchor does not resolve", "")
+		} else {
+			recv := ssa.Value(f.Params[0])
+			readsLeaf := func(v ssa.Value) bool {
+				seen := map[ssa.Value]bool{}
+				var walk func(ssa.Value) bool
+				walk = func(x ssa.Value) bool {
+					if seen[x] {
+						return false
+					}
+					seen[x] = true
+					switch y := x.(type) {
+					case *ssa.UnOp:
+						if fa, ok := y.X.(*ssa.FieldAddr); ok && fa.X == recv && fieldName(fa) == "leaf" {
+							return true
+						}
+						return walk(y.X)
+					case *ssa.BinOp:
+						return walk(y.X) || walk(y.Y)
+					case *ssa.Phi:
+						for _, e := range y.Edges {
+							if walk(e) {
+								return true
+							}
+						}
+					}
+					return false
+				}
+				return walk(v)
+			}
+			n := 0
+			var bad []string
+			for _, b := range f.Blocks {
+				for _, in := range b.Instrs {
+					st, ok := in.(*ssa.Store)
+					if !ok {
+						continue
+					}
+					fa, ok := st.Addr.(*ssa.FieldAddr)
+					if !ok || fa.X != recv || fieldName(fa) != "leaf" {
+						continue
+					}
+					n++
+					for d := b; d.Idom() != nil; d = d.Idom() {
+						pd := d.Idom()
+						ifi, ok := pd.Instrs[len(pd.Instrs)-1].(*ssa.If)
+						if !ok || len(d.Preds) != 1 {
+							continue
+						}
+						if readsLeaf(ifi.Cond) {
+							bad = append(bad, fmt.Sprintf("the assignment at %s is guarded by a test of s.leaf at %s", p.pos(st.Pos()), p.pos(ifi.Pos())))
+						}
+					}
+				}
+			}
+			switch {
+			case n == 0:
+				c.bad("C15.reset", what, "Write never assigns s.leaf", p.fnPos(f))
+			case len(bad) > 0:
+				c.bad("C15.reset", what, strings.Join(bad, "; ")+": after Reset the old leaf (possibly mid-absorb or already squeezed) is reused", p.fnPos(f))
+			default:
+				c.ok("C15.reset", what, fmt.Sprintf("%d assignment(s), none conditional on the old leaf", n), p.fnPos(f))
+			}
+		}
+	}
 	// constructor parameters
 	want := []struct {
 		fn     string
@@ -514,6 +585,17 @@ func checkC15(c *Ctx) {
 		}
 		c.reachRule(p, "C15.expander", "an output length of 65536 bytes is refused before anything is hashed", f, map[string]lat{"n": latInt(65536)}, as, nil, "expander.mustWrite", false)
 		c.reachRule(p, "C15.expander", "an output length of 32 bytes is served", f, map[string]lat{"n": latInt(32)}, as, nil, "expander.mustWrite", true)
+		if typ == "expanderMD" {
+			// expand_message_xmd aborts when ell = ceil(len_in_bytes / b_in_bytes) > 255: the block counter is one
+			// byte. With the largest digest (64 bytes) 255 blocks are 16320 bytes
+			c.reachRule(p, "C15.expander", "16321 bytes (256 blocks of the largest digest) are refused before anything is hashed", f, map[string]lat{"n": latInt(16321)}, as, nil, "expander.mustWrite", false)
+			c.reachRule(p, "C15.expander", "16320 bytes (255 blocks of the largest digest) are served", f, map[string]lat{"n": latInt(16320)}, as, nil, "expander.mustWrite", true)
+		}
+	}
+	// the 2-way state is permuted by the 2-way routines and the 4-way state by the 4-way ones, in both arms
+	for _, t := range []struct{ typ, own, other string }{{"StateX2", "2", "4"}, {"StateX4", "4", "2"}} {
+		c.callCountRule(p, "C15.lanes", "the "+t.own+"-way state is permuted by the "+t.own+"-way routines in both arms", p.Func("simd/keccakf1600", t.typ, "Permute"),
+			map[string]int{"simd/keccakf1600.permuteScalarX" + t.own: 1, "simd/keccakf1600.permuteSIMDx" + t.own: 1, "simd/keccakf1600.permuteScalarX" + t.other: 0, "simd/keccakf1600.permuteSIMDx" + t.other: 0})
 	}
 	// lanes: the turbo flag reaches the scalar permutation
 	for _, n := range []string{"permuteScalarX2", "permuteScalarX4"} {
